@@ -131,6 +131,11 @@ fn build_inner(path: &str, samples: &[Sample], cfg: &Cfg) -> Result<(), String> 
     c.finalize().map_err(|e| format!("finalize: {e:#}"))
 }
 
+/// build on the calling thread/task (no helper thread, no watchdog): for use inside a scheduler execution
+pub fn build_archive_inline(path: &str, samples: &[Sample], cfg: &Cfg) -> Result<(), String> {
+    build_inner(path, samples, cfg)
+}
+
 #[derive(Debug, Clone, PartialEq)]
 pub enum BuildErr {
     Error(String),
